@@ -6,6 +6,8 @@ class SameID:
     if previous.__class__ is not self.__class__:
       # only group lines of the same type can share an ID
       return super()._process_not_unique(previous)
+    # check the tags first, so that nothing is merged if they are incompatible
+    self._check_tags_of_previous_group_definition(previous)
     self._gfa = previous.gfa
     self._initialize_references()
     cur_items = self.get("items")
@@ -15,7 +17,7 @@ class SameID:
     self._import_tags_of_previous_group_definition(previous)
     return None
 
-  def _import_tags_of_previous_group_definition(self, previous):
+  def _check_tags_of_previous_group_definition(self, previous):
     for tag in previous.tagnames:
       prv = previous.get(tag)
       cur = self.get(tag)
@@ -27,5 +29,8 @@ class SameID:
             "Previous tag definition: {}\n".format(prv)+
             "New tag definition: {}\n".format(cur)+
             "Group ID: {}".format(self.name))
-      else:
-        self.set(tag, prv)
+
+  def _import_tags_of_previous_group_definition(self, previous):
+    for tag in previous.tagnames:
+      if not self.get(tag):
+        self.set(tag, previous.get(tag))
